@@ -744,6 +744,7 @@ type c15Replay struct {
 	Body    string `json:"body_hex,omitempty"`
 	Note    string `json:"note,omitempty"`
 	Rows    any    `json:"rows,omitempty"`
+	Cuts    []int  `json:"cuts,omitempty"` // batch sizes of a TraceQL search case
 }
 
 type c15Pending struct {
@@ -1699,7 +1700,11 @@ func c15(r *h.Result, rng *h.Rng, tier string, replay string) error {
 		"3 batchings each (one batch + EOF marker; random cuts with empty batches; one entry per batch with markers inside), 6% with an error entry; " +
 		"labels/lines over all bytes (JSON metacharacters, control bytes, DEL, invalid and boundary UTF-8, U+2028/9); floats: integers, dyadic, extreme " +
 		"magnitudes, subnormal, NaN/Inf, random bit patterns; timestamps: 0..2, negative, int64 extremes, realistic ns (matrix: millisecond-aligned); " +
-		"non-trivial = at least two series runs or first fingerprint 0; distinct by case text"
+		"non-trivial = at least two series runs or first fingerprint 0; distinct by case text. " +
+		"sizes: every encoder on result sets of the size classes 0..3, c-1, c, c+1, 2c-1, 2c, 2c+1, 3c, 3c+1 around every batching constant c regenerated " +
+		"from the source (Gen.C15Batch: 10, 100, 2000, 3000 on the pinned tree) and 1000, 1001; in the search and thorough tiers every size 0..450; " +
+		"short distinct rows with escaping-relevant bytes at the batch edges; batchings as Scan cuts them, one batch, c+1 with an empty batch, random; " +
+		"non-trivial = at least two rows; distinct by kind, size and row hash"
 	if replay != "" {
 		return c15Replayer(r, replay)
 	}
